@@ -157,10 +157,15 @@ def expect_api(gen: int, target, call: str, args: dict, ctx: dict) -> dict:
             t = args["temperature"]
             if gen == 4:
                 vals = {int(v) for v in rounded(t, 0)}
+                if all(not 0 <= v <= 255 for v in vals):
+                    return {"skip": "zone set-point outside one byte", "inexpressible": True}
                 if any(not 0 <= v <= 255 for v in vals):
                     return {"skip": "zone set-point outside one byte"}
                 return {"accept": [mk(dict(base, setting="setpoint", value=v), {"keep", "temperature"}) for v in sorted(vals)], "policy": "idem"}
             raws = {round(v * 10) - 100 for v in rounded(t, 1)}
+            if all(not 0 <= v <= 255 for v in raws):
+                # the protocol byte cannot say this temperature at all: whatever else happens, no frame may claim another one
+                return {"skip": "zone set-point outside the protocol byte", "inexpressible": True}
             if any(not 0 <= v <= 250 for v in raws):
                 return {"skip": "zone set-point outside the protocol byte"}
             return {"accept": [mk(dict(base, setting="setpoint", value=v), {"keep", "temperature"}) for v in sorted(raws)], "policy": "idem"}
